@@ -22,6 +22,8 @@ One output line per input line.
   rows_c13api             → culprits of `vec_api_covered`: uncovered fns / bad entries / stale entries, or `none`
   rows_c17s               → falsifying rows of the C17 surface theorems (`<theorem>: … @ file:line`)
   expr_macros             → `;`-separated names of the exported macros that take an expression
+  rows_c01api             → uncovered fns / bad / stale entries of the byte-string coverage map
+                            (`byt_api_covered: … @ file:line`), or `none`
   selfcheck               → 1 iff every generated key is the key of its string
 -/
 import HipVerif.Model.AutoTraitRows
@@ -29,6 +31,7 @@ import HipVerif.Model.PubFns
 import HipVerif.Model.Doors
 import HipVerif.Model.Delegates
 import HipVerif.Model.Surface
+import HipVerif.Model.BytApi
 import HipVerif.Model.VecApi
 
 open HipVerif.Model.AutoTrait
@@ -220,6 +223,21 @@ def rowsC17s : List String :=
     s!"const_param_guards_exact: expected guard `{decKey e.2.2}` of {decKey e.2.1} is missing"
   ov ++ st ++ pr ++ mc ++ ui ++ uu ++ us ++ mh ++ gu ++ gm
 
+def rowsC01api : List String :=
+  let B := HipVerif.Gen.BytApi.bytFns
+  let locOf := fun (k : Nat) => ((B.find? (·.key == k)).map (·.loc)).getD "?"
+  let a := HipVerif.Model.BytApi.uncoveredFns.map fun f =>
+    s!"byt_api_covered: {f.name} ({match f.vis with | .pub => "pub" | .crate => "pub(crate)" | .priv => "private" | .traitImpl => "trait impl"}{if f.isUnsafe then ", unsafe" else ""}) has no entry in bytApiCoverage — not an operation of the Core model, not reached through one, not monitored, not reviewed @ {f.loc}"
+  let b := HipVerif.Model.BytApi.badEntries.map fun k =>
+    s!"byt_api_covered: the entry of {decKey k} is not backed by the generated facts (operation not in the model / not dispatched by coredrive, method not called by `impl Subject for HipByt`, or entry point that does not reach the helper) @ {locOf k}"
+  let c := HipVerif.Model.BytApi.staleEntries.map fun k =>
+    s!"byt_api_covered: stale or duplicated entry {decKey k}"
+  let d := if HipVerif.Model.BytApi.opsDispatched then [] else
+    ["byt_api_covered: an operation of the Core model is not dispatched by coredrive"]
+  let e := if HipVerif.Model.BytApi.opsImplemented then [] else
+    ["core_ops_complete: an operation of the Core model is the image of no entry"]
+  a ++ b ++ c ++ d ++ e
+
 def tiedAnswer (name : String) : String :=
   match HipVerif.Gen.PubFns.pubFns.find? (fun f => f.name == name) with
   | none => "err"
@@ -242,6 +260,7 @@ def answer (line : String) : String :=
   | ["rows_c17"] => join rowsC17
   | ["rows_c06"] => join rowsC06
   | ["rows_c17s"] => join rowsC17s
+  | ["rows_c01api"] => join rowsC01api
   | ["expr_macros"] => String.intercalate ";" HipVerif.Model.Surface.exprMacros
   | ["rows_c01d"] => join rowsC01d
   | ["rows_c13api"] =>
@@ -262,7 +281,8 @@ def answer (line : String) : String :=
     | some f => if borrowViewFns.contains f.simpleKey || neverBorrowed.contains f.key then "1" else "0"
   | ["selfcheck"] =>
     if keysOk HipVerif.Gen.PubFns.pubFns HipVerif.Gen.PubFns.sites && HipVerif.Model.Doors.doorKeysOk &&
-        HipVerif.Model.Delegates.delegateKeysOk && HipVerif.Model.Surface.surfaceKeysOk
+        HipVerif.Model.Delegates.delegateKeysOk && HipVerif.Model.Surface.surfaceKeysOk &&
+        HipVerif.Model.BytApi.bytApiKeysOk
     then "1" else "0"
   | _ => "err"
 
